@@ -27,7 +27,12 @@ def _chunk(args):
   out = []
   for rec in recs:
     try:
-      b = family.build(rec, seed)
+      if "xml" in rec:  # catalogue scene
+        class B:
+          xml = rec["xml"]
+        b = B()
+      else:
+        b = family.build(rec, seed)
       mjm = mujoco.MjModel.from_xml_string(b.xml)
       m = mjw.put_model(mjm)
     except Exception as e:
@@ -37,7 +42,18 @@ def _chunk(args):
     nworld = 2
     d = mjw.make_data(mjm, nworld=nworld)
     mjd = mujoco.MjData(mjm)
-    st = family.make_state(rec, mjm, seed, vscale=6.0 if c["vc"] == "rand" else 1.0)  # large angular velocities
+    if "xml" in rec:
+      # every free / ball quaternion far from unit length, everything exactly at rest
+      rr = family.rng_for(c, seed, "still")
+      q0 = mjm.qpos0.copy()
+      for j in range(mjm.njnt):
+        if mjm.jnt_type[j] in (0, 1):
+          a = int(mjm.jnt_qposadr[j]) + (3 if mjm.jnt_type[j] == 0 else 0)
+          q = rr.normal(size=4)
+          q0[a : a + 4] = q / np.linalg.norm(q) * rr.choice([0.35, 2.5])
+      st = {"qpos": q0, "qvel": np.zeros(mjm.nv)}
+    else:
+      st = family.make_state(rec, mjm, seed, vscale=6.0 if c["vc"] == "rand" else 1.0)  # large angular velocities
     family.apply_state(mjm, mjd, m, d, st)
     qadr = [(int(mjm.jnt_qposadr[j]) + (3 if mjm.jnt_type[j] == 0 else 0)) for j in range(mjm.njnt) if mjm.jnt_type[j] in (0, 1)]
     states = []
@@ -68,7 +84,15 @@ def run(ctx: core.Ctx):
               "xmat/ximat/geom_xmat/site_xmat/cam_xmat (1e-4); TLC checks Rotations.tla on every recorded state. evaluations = recorded states")
   n = 70 if ctx.quick else 500
   nsteps = 60 if ctx.quick else 400
-  recs = family.sample(ctx, n, seed_off=23, maxbody=5, joints=JOINTS, geoms=GEOMS, feats=FEATS, maxfeat=5, integrators=INTEGRATORS, qclasses=("unnorm", "rand"), vclasses=("rand",))
+  recs = family.sample(ctx, n, seed_off=23, maxbody=5, joints=JOINTS, geoms=GEOMS, feats=FEATS, maxfeat=5, integrators=INTEGRATORS, qclasses=("unnorm", "rand"), vclasses=("rand", "zero"))
+  # bodies that never start to rotate (no torque: free fall, a ball joint through the centre of mass): the integrator's zero-rotation path
+  for integ in INTEGRATORS:
+    xml = (f'<mujoco><option integrator="{integ}" timestep="0.004"/><worldbody>'
+           '<body pos="0 0 2"><freejoint/><geom type="ellipsoid" size="0.1 0.07 0.05"/><site name="sa" pos="0.05 0 0"/><camera name="ca" pos="0 0 0.2"/></body>'
+           '<body pos="1 0 1"><joint type="ball"/><geom type="sphere" size="0.1"/><site name="sb" pos="0 0.05 0"/>'
+           '<body pos="0 0 0"><joint type="ball"/><geom type="sphere" size="0.05"/></body></body>'
+           '<body pos="2 0 1"><joint type="slide" axis="0 0 1"/><joint type="ball"/><geom type="box" size="0.1 0.1 0.1"/></body></worldbody></mujoco>')
+    recs.append({"xml": xml, "c": {"nb": 4, "jn": ["free", "ball", "ball", "ballslide"], "feats": ["still"], "integrator": integ, "qc": "unnorm", "vc": "zero", "catalogue": "still/" + integ}})
   CH = max(1, len(recs) // 28 + 1)
   traces, owners = [], []
   for res in core.pmap(_chunk, [(recs[i : i + CH], ctx.seed, nsteps) for i in range(0, len(recs), CH)], nproc=14):
